@@ -43,7 +43,7 @@ func newRGenSlowSrc(rng *rand.Rand, focus string) (*rGen, string) {
 	g.slowSrc = true
 	g.sgated = make([]bool, g.ns)
 	g.faultsLeft = 0
-	return g, begin + " slowsrc"
+	return g, begin
 }
 
 func newRGen(rng *rand.Rand, focus string) (*rGen, string) {
